@@ -1,6 +1,6 @@
 (* PEL commands of the extracted binary: generators (spec side) and the decode model. *)
 From Coq Require Import List NArith ZArith Bool Arith.
-From PV Require Import Base.Bytes Base.Lit Base.Json Base.Utf8 Base.PelTypes Model.Hexdump Model.Parse Model.Render Model.Pel Model.Env
+From PV Require Import Base.Bytes Base.Lit Base.Json Base.Utf8 Base.PelTypes Model.Hexdump Model.Parse Model.Render Model.Pel Model.Env Model.Pretty
                        Spec.Encode Spec.DocOf Spec.Choice Spec.PublishedTables.
 Import ListNotations.
 Open Scope N_scope.
@@ -57,6 +57,11 @@ Definition run_pel (cmd : text) (args : list bytes) : option text :=
       (L "offsets", JArr (map (fun o => JNum (Z.of_N o)) (offsets 72 (p_secs p))));
       (L "ids", JArr (map (fun s => JNum (Z.of_N (sec_id s))) (p_secs p)));
       (L "model", render_outcome (decode env0 c (fun _ => true) data))]))
+  else if is_cmd cmd (L "pretty") then
+    match utf8_decode (arg 1 args) with
+    | Some t => Some (render (JStr (pretty_print (nat_arg (arg 0 args)) t)))
+    | None => Some (L "null")
+    end
   else if is_cmd cmd (L "decode") then
     Some (render (render_outcome (decode env0 (cfg_of (arg 0 args)) (fun _ => true) (arg 1 args))))
   else None.
